@@ -30,6 +30,8 @@ FIELDS = {
     "digit": ["alpha", "beta_gamma", "delta"], "quote": ["alpha", "beta_gamma", "delta"], "single_letter": ["a", "b", "c"],
     "kw_dashed": ["default", "beta_gamma", "protocol"], "kebab_kw": ["default", "alpha_one", "case"],
     "unicode": ["alpha", "beta_gamma", "delta"],
+    # not keywords as written, but keywords once a backend normalises them (snake_case drops edge underscores, lower-cases)
+    "kw_py_edge": ["from_", "in_", "_return"],
 }
 VARIANTS = {
     "plain": ["Alpha", "BetaGamma", "Delta"], "kw_swift": ["default", "case", "protocol"], "kw_py": ["from", "def", "pass"],
@@ -38,6 +40,7 @@ VARIANTS = {
     "digit": ["Alpha", "BetaGamma", "Delta"], "quote": ["Alpha", "BetaGamma", "Delta"], "single_letter": ["A", "B", "C"],
     "kw_dashed": ["default", "BetaGamma", "protocol"], "kebab_kw": ["default", "AlphaOne", "case"],
     "unicode": ["Alpha", "BetaGamma", "Delta"],
+    "kw_py_edge": ["Alpha", "BetaGamma", "Delta"],
 }
 RENAMES = {"dashed": ["alpha-one", "beta-two", "x-y-z"], "kw_dashed": [None, "beta-two", None], "digit": ["1st", "2nd", "3rd"], "quote": ['al"pha', "be'ta", 'de"l"ta'],
            # wire names with a combining mark, an emoji + variation selector, a zero-width joiner (printable text is not all there is)
@@ -82,6 +85,7 @@ def first_type(c):
         "user": ([], "Other"), "generic": ([], "T"), "override_lang": ([OVERRIDE], "String"), "serialized_as": (['#[typeshare(serialized_as = "String")]'], "Other"),
         "unit": ([], "()"), "array": ([], "[u8; 4]"), "nested": ([], "Option<HashMap<String, Option<Vec<Other>>>>"),
         "boxed_self": ([], f"Option<Box<{name}>>"), "i64": ([], "I54"), "default_attr": (["#[serde(default)]"], "u32"),
+        "datetime": ([], "OffsetDateTime"), "bytes": ([], "Vec<u8>"),
     }[t]
 
 
@@ -215,6 +219,9 @@ def classify(ev, pyrec=None):
         return "string-escape"
     if base_balance(ev["tokens"]):
         return "unbalanced-delimiters"
+    t = ev["tokens"]
+    if ev["lang"] != "go" and any((a == "str" and b in ("str", "id", "num")) or (a in ("id", "num") and b == "str") for a, b in zip(t, t[1:])):
+        return "juxtaposed-literals"
     return "declaration-grammar"
 
 
